@@ -273,9 +273,11 @@ class Report:
               (self.prop, self.tier, c["jobs"], c["states"], c["transitions"], c["terminal_states"],
                c["distinct_outcomes"], c["jobs_capped"], c["merge_audits"], len(matched), len(new),
                len(self.harness_errors), wall))
+        if new:
+            return 1            # (harness errors, if any, are listed above; a violation was shown and takes precedence)
         if self.harness_errors:
             return 2
-        return 1 if new else 0
+        return 0
 
 
 def _short_job(job):
